@@ -1,3 +1,77 @@
-import Sbdf.Slice
+/-
+  C07 — Skipping and column-subset reads are equivalent to full reads.
+  `Reads p bs a` (Sbdf/Lemmas/P.lean) says: in any context — any bytes before, ANY bytes after —
+  `p` returns `a` and stops exactly after `bs`.  So "skip leaves the stream exactly where a full
+  read would, with the same status" is `Reads skip bs ()` next to `Reads read bs v` for the same
+  `bs`, and "each section reader consumes exactly the bytes its writer produced, whatever follows"
+  is the shape of every statement below.
+-/
+import Sbdf.Lemmas.ReadsTM
+import Sbdf.Props.C04
 namespace Sbdf.C07
+open Spec
+
+/-- value arrays: read and skip consume exactly the encoding, for every encoding -/
+theorem va_read_and_skip (c : Cfg) (va : VA) (h : va.Fits c) :
+    Reads (readVA c) (Spec.va c va) va ∧ Reads (skipVA c) (Spec.va c va) () :=
+  ⟨reads_va c va h, reads_skipVA c va h⟩
+
+/-- packed and unpacked objects: the array skip uses the byte-size header the writer computed -/
+theorem obj_read_and_skip (c : Cfg) (o : Obj) (h : o.Fits c) (hbs : isArr o.tid = true → isInt32 (byteSize o.elems)) :
+    Reads (readObjArr c o.tid) (objArr c o) o ∧ Reads (skipObjArr c o.tid) (objArr c o) () :=
+  ⟨reads_objArr c o h hbs, reads_skipObjArr c o h hbs⟩
+
+/-- column slices -/
+theorem cs_read_and_skip (c : Cfg) (x : CS) (h : x.Fits c) :
+    Reads (readCS c) (Spec.cs c x) x ∧ Reads (skipCS c) (Spec.cs c x) () :=
+  ⟨reads_cs c x h, reads_skipCS c x h⟩
+
+/-- strings -/
+theorem string_read_and_skip (c : Cfg) (s : Bytes) (h : fitsStr c s.length) :
+    Reads (readString c) (str c s) s ∧ Reads (skipString c) (str c s) () :=
+  ⟨reads_string c s h, reads_skipString c s (isInt32_of_fitsStr h)⟩
+
+/-- table slices: a read with a column subset returns the selected columns identical to the full
+    read and the others absent, and ends at the same position; skipping the slice ends there too -/
+theorem ts_subset (c : Cfg) (cols : List CS) (h : TSFits c cols) (sub : Option (List Bool)) :
+    Reads (readTS c cols.length sub) (Spec.ts c cols) (some ⟨maskFrom sub 0 cols⟩) ∧
+    Reads (readTS c cols.length none) (Spec.ts c cols) (some ⟨cols.map some⟩) ∧
+    Reads (skipTS c cols.length) (Spec.ts c cols) true := by
+  refine ⟨reads_ts c sub cols h, ?_, ?_⟩
+  · have := reads_ts c none cols h; rwa [maskFrom_none] at this
+  · unfold skipTS
+    simp only [P.bind_def]
+    have := Reads.bind (reads_ts c (some (List.replicate cols.length false)) cols h)
+      (f := fun r => P.pure r.isSome) (Reads.pure _)
+    simpa using this
+
+/-- the selected columns of a subset read are exactly those of the full read -/
+theorem mask_selected (sub : Option (List Bool)) (cols : List CS) (i : Nat) (hi : i < cols.length) :
+    (maskFrom sub 0 cols)[i]? = some (if wantCol sub i then some cols[i] else none) := by
+  suffices h : ∀ (k : Nat) (l : List CS) (j : Nat) (hj : j < l.length),
+      (maskFrom sub k l)[j]? = some (if wantCol sub (k + j) then some l[j] else none) by
+    simpa using h 0 cols i hi
+  intro k l
+  induction l generalizing k with
+  | nil => intro j hj; simp at hj
+  | cons x xs ih =>
+    intro j hj
+    cases j with
+    | zero => simp [maskFrom]
+    | succ j =>
+      simp only [maskFrom, List.getElem?_cons_succ, List.getElem_cons_succ]
+      have := ih (k + 1) j (by simpa using hj)
+      rw [this]
+      have e : k + 1 + j = k + (j + 1) := by omega
+      rw [e]
+
+/-- whole file with a subset: same end-of-table position as the full read (corollary of C04) -/
+theorem file_subset_same_end (c : Cfg) (p : PhysTM) (cols : List Md) (slices : List (List CS))
+    (hp : p.Ok c cols) (hn : ∀ s ∈ slices, s.length = p.cols.length) (hf : ∀ s ∈ slices, TSFits c s)
+    (sub : Option (List Bool)) (rest : Bytes) (fuel : Nat) (hfuel : slices.length < fuel) :
+    (readFileF c sub fuel (C04.file c p slices ++ rest).toArray).last =
+    (readFileF c none fuel (C04.file c p slices ++ rest).toArray).last := by
+  rw [C04.reads_wellformed c p cols slices hp hn hf sub rest fuel hfuel,
+      C04.reads_wellformed c p cols slices hp hn hf none rest fuel hfuel]
+
 end Sbdf.C07
